@@ -98,11 +98,11 @@ GEN11 = ' + GEN(1): mover has at most one man of each non-king kind (opponent ar
 GEN20 = ' + GEN(2 pawns, 0 pieces): mover has king and at most two pawns (opponent arbitrary); '
 for gk, gc in GENS:
     for sk, sc, sd in SIDES:
-        reg('c06_semilegal_gen_%s_%s' % (gk, sk), 'C06', T, 7200, 16, FULL + GEN11 + sd, 'c06::semilegal_gen_exact::<_, %s, %s, 1, 1>' % (sc, gc), 's12', 65, gen_k=1,
+        reg('c06_semilegal_gen_%s_%s' % (gk, sk), 'C06', T, 7200, 16, FULL + GEN11 + sd, 'c06::semilegal_gen_exact::<_, %s, %s, 1, 1>' % (sc, gc), 's12', 65, gen_k=(1, 1),
             bounds='GEN(1); generator loops unwound per loop (unwindset derived from cbmc --show-loops)', props=['C06', 'C19', 'C01'])
 for gk, gc in [('all', 'G_ALL')]:
     for sk, sc, sd in SIDES:
-        reg('c06_semilegal_gen_pawns_%s_%s' % (gk, sk), 'C06', QT, 3600, 12, FULL + GEN20 + sd, 'c06::semilegal_gen_exact::<_, %s, %s, 2, 0>' % (sc, gc), 's12', 65, gen_k=2,
+        reg('c06_semilegal_gen_pawns_%s_%s' % (gk, sk), 'C06', QT, 3600, 20, FULL + GEN20 + sd, 'c06::semilegal_gen_exact::<_, %s, %s, 2, 0>' % (sc, gc), 's12', 65, gen_k=(2, 0),
             bounds='GEN(2 pawns, 0 pieces): pawn, en-passant, king and castling generation only', props=['C06', 'C19', 'C01', 'C18'])
 
 # ---------------------------------------------------------------- C01
@@ -113,7 +113,7 @@ fam('c01_try_unchecked', 'C01', 'c01::try_unchecked_exact', 's12', 65, 3600, 12,
 for gk, gc in GENS:
     for sk, sc, sd in SIDES:
         reg('c01_legal_gen_list_%s_%s' % (gk, sk), 'C01', T, 10800, 24, FULL + ' + GEN(1); real legal::gen_%s (ArrayVec, retain) with the legality '
-            'filter abstracted (S6); %s' % (gk, sd), 'c01::legal_gen_list::<_, %s, %s, 1, 1>' % (sc, gc), 's126', 65, gen_k=1,
+            'filter abstracted (S6); %s' % (gk, sd), 'c01::legal_gen_list::<_, %s, %s, 1, 1>' % (sc, gc), 's126', 65, gen_k=(1, 1),
             bounds='GEN(1); composition with c01_prefiltered (filter = rules) is a one-line argument, stated in DESIGN.md C01')
 
 # ---------------------------------------------------------------- C03 / C04 / C05
@@ -137,9 +137,9 @@ fam_side('c07_castling_never_only_move', 'C07', 'c07::castling_never_only_move',
 
 for sk, sc, sd in SIDES:
     reg('c07_has_legal_moves_wiring_%s' % sk, 'C07', T, 10800, 24, FULL + ' + GEN(1); real has_legal_moves with the legality filter abstracted (S6); ' + sd,
-        'c07::has_legal_moves_wiring::<_, %s, 1, 1>' % sc, 's126', 65, gen_k=1, bounds='GEN(1)', props=['C07', 'C01'])
-    reg('c07_has_legal_moves_wiring_pawns_%s' % sk, 'C07', QT, 3600, 14, FULL + GEN20 + 'real has_legal_moves with the legality filter abstracted (S6); ' + sd,
-        'c07::has_legal_moves_wiring::<_, %s, 2, 0>' % sc, 's126', 65, gen_k=2, bounds='GEN(2 pawns, 0 pieces)', props=['C07', 'C01'])
+        'c07::has_legal_moves_wiring::<_, %s, 1, 1>' % sc, 's126', 65, gen_k=(1, 1), bounds='GEN(1)', props=['C07', 'C01'])
+    reg('c07_has_legal_moves_wiring_pawns_%s' % sk, 'C07', QT, 3600, 22, FULL + GEN20 + 'real has_legal_moves with the legality filter abstracted (S6); ' + sd,
+        'c07::has_legal_moves_wiring::<_, %s, 2, 0>' % sc, 's126', 65, gen_k=(2, 0), bounds='GEN(2 pawns, 0 pieces)', props=['C07', 'C01'])
 
 # ---------------------------------------------------------------- C10
 fam('c10_uci_struct_roundtrip', 'C10', 'c10::uci_struct_roundtrip', 's12', 65, 2400, 10, 'all semilegal moves of the group', quick='all')
@@ -152,9 +152,11 @@ fam_side('c10_uci_string_readers', 'C10', 'c10::uci_string_readers', 's12', 65, 
          tiers=T, props=['C10', 'C02'])
 
 # ---------------------------------------------------------------- C02
-fam('c02_make_move_step', 'C02', 'c02::make_move_step', 's12', 65, 3600, 14, 'all well-formed tuples of the group; validity of the result via '
+fam('c02_make_move_step', 'C02', 'c02::make_move_step', 's12', 65, 3600, 16, 'all well-formed tuples of the group; validity of the result via '
     'C11\'s conditions', groups=GROUPS + [FOREIGN], extra_const=', false')
-fam('c02_make_move_step_direct', 'C02', 'c02::make_move_step', 's12', 65, 7200, 16, 'as c02_make_move_step, and the result is re-validated '
+fam('c02_make_raw_step', 'C02', 'c02::make_raw_step', 's12', 65, 3600, 16, 'all well-formed tuples of the group; Make::make_raw in place',
+    groups=GROUPS + [FOREIGN], props=['C02', 'C04'])
+fam('c02_make_move_step_direct', 'C02', 'c02::make_move_step', 's12', 65, 7200, 20, 'as c02_make_move_step, and the result is re-validated '
     'with the real Board::try_from', groups=[g for g in GROUPS if g[0] in ('ep', 'castling', 'pspecial', 'king')], quick=set(), extra_const=', true')
 
 # ---------------------------------------------------------------- C09 (value level)
@@ -207,14 +209,14 @@ CHAIN_CASES = {
 for (st, pre), ops in CHAIN_CASES.items():
     for ok in ops:
         code = {'uci': 20, 'other': 30}.get(ok) or KGCODE[ok]
-        reg('c13_chain_step_s%d_p%d_%s' % (st, pre, ok), 'C13', T, 3600, 12,
+        reg('c13_chain_step_s%d_p%d_%s' % (st, pre, ok), 'C13', T, 3600, 20,
             'chain state = stated start position %d after stated concrete prefix %d; one symbolic operation (%s), optionally followed by a pop'
             % (st, pre, 'push of any move of group ' + ok if code < 20 else ('push of any UCI value' if code == 20 else 'pop / set / clear / reset / automatic outcome')),
             'c13::chain_step::<_, %d, %d, %d>' % (st, pre, code), 's13', 66,
             bounds='pre-states from the stated finite sets START x PREFIX; BaseMoveChain<ArrRepeat>; two or more symbolic pushes are outside',
             props=['C13', 'C14'])
 for st, gk in [(0, 'pawn'), (0, 'king'), (0, 'castling'), (1, 'pspecial'), (4, 'king'), (5, 'knight')]:
-    reg('c13_chain_eq_s%d_%s' % (st, gk), 'C13', T, 3600, 12, 'two chains (same start / other clocks / no castling rights / another start), one symbolic push of group %s and outcome each' % gk,
+    reg('c13_chain_eq_s%d_%s' % (st, gk), 'C13', T, 3600, 20, 'two chains (same start / other clocks / no castling rights / another start), one symbolic push of group %s and outcome each' % gk,
         'c13::chain_eq::<_, %d, %d>' % (st, KGCODE[gk]), 's13', 66)
 for st, pre, gk in [(1, 3, None), (5, 3, None), (5, 4, None), (0, 3, None), (0, 1, 'king'), (2, 0, 'rook')]:
     reg('c17_walker_s%d_p%d_%s' % (st, pre, gk or 'concrete'), 'C17', T, 3600, 12,
@@ -233,7 +235,7 @@ for hk, hc in [('v', 'MV'), ('h', 'MH')]:
                 'c18::mirror_move::<_, %s, %s, {crate::c18::%s}>' % (sc, gc, hc), 's12', 65)
     for sk, sc, sd in SIDES:
         reg('c18_mirror_outcome_%s_%s' % (hk, sk), 'C18', QT, 5400, 14, FULL + '; ' + sd, 'c18::mirror_outcome_eq::<_, %s, {crate::c18::%s}>' % (sc, hc), 's123', 65)
-        reg('c18_mirror_gen_%s_%s' % (hk, sk), 'C18', T, 10800, 24, FULL + ' + GEN(1); ' + sd, 'c18::mirror_gen::<_, %s, {crate::c18::%s}, 1, 1>' % (sc, hc), 's12', 65, gen_k=1,
+        reg('c18_mirror_gen_%s_%s' % (hk, sk), 'C18', T, 10800, 24, FULL + ' + GEN(1); ' + sd, 'c18::mirror_gen::<_, %s, {crate::c18::%s}, 1, 1>' % (sc, hc), 's12', 65, gen_k=(1, 1),
             bounds='GEN(1)')
 
 PROPS = ['C%02d' % i for i in range(1, 21)]
@@ -248,7 +250,7 @@ def _g(prefix, pairs):
 
 QUICK = {
     'C01': _g('c01_prefiltered', [('w', 'ep'), ('b', 'ep'), ('w', 'king'), ('b', 'castling')]) + ['c06_semilegal_gen_pawns_all_w', 'c06_semilegal_gen_pawns_all_b'],
-    'C02': _g('c02_make_move_step', [('w', 'ep'), ('b', 'castling'), ('w', 'pspecial'), ('b', 'foreign')]) + ['c09_san_simple_pawn_refused', 'c09_san_into_move_castling_b',
+    'C02': _g('c02_make_move_step', [('w', 'ep'), ('b', 'castling'), ('w', 'pspecial')]) + _g('c02_make_raw_step', [('b', 'ep'), ('w', 'castling'), ('b', 'foreign')]) + ['c09_san_simple_pawn_refused', 'c09_san_into_move_castling_b',
            'c10_uci_parse_exact', 'c13_chain_step_s0_p0_castling'],
     'C03': _g('c03_make_unmake', [('w', 'pspecial'), ('b', 'pspecial'), ('w', 'ep'), ('b', 'ep'), ('w', 'castling'), ('b', 'castling'), ('b', 'king'), ('w', 'rook')]),
     'C04': _g('c03_make_unmake', [('w', 'null'), ('b', 'null'), ('w', 'pspecial'), ('b', 'castling'), ('b', 'ep'), ('w', 'queen'), ('b', 'pspecial'), ('w', 'castling')]),
@@ -287,7 +289,8 @@ THOROUGH = {
             'c01_validate_b_queen', 'c01_try_unchecked_?_ep', 'c01_try_unchecked_?_castling', 'c06_semilegal_gen_all_?', 'c06_semilegal_gen_capture_w',
             'c06_semilegal_gen_simple_b', 'c06_semilegal_gen_simple_no_promote_w', 'c06_semilegal_gen_simple_promote_b', 'c06_semilegal_gen_pawns_all_?',
             'c01_legal_gen_list_all_?', 'c01_legal_gen_list_capture_b', 'c01_legal_gen_list_simple_w'],
-    'C02': ['c02_make_move_step_?_*', 'c02_make_move_step_direct_w_ep', 'c02_make_move_step_direct_b_castling', 'c09_san_simple_pawn_refused',
+    'C02': ['c02_make_move_step_?_*', 'c02_make_raw_step_?_ep', 'c02_make_raw_step_?_castling', 'c02_make_raw_step_?_pspecial', 'c02_make_raw_step_w_king', 'c02_make_raw_step_b_queen',
+            'c02_make_raw_step_w_foreign', 'c02_make_move_step_direct_w_ep', 'c02_make_move_step_direct_b_castling', 'c09_san_simple_pawn_refused',
             'c09_san_into_move_castling_?', 'c09_san_into_move_pawnshort_w', 'c09_san_into_move_simple_b', 'c10_uci_accept_exact_?', 'c10_uci_parse_exact',
             'c10_uci_string_readers_w', 'c13_chain_step_s0_p0_*', 'c13_chain_step_s1_p1_king'],
     'C03': ['c03_make_unmake_*'],
